@@ -308,6 +308,39 @@ def netlist_cases(draw, max_nodes):
     return {'kind': 'netlist', 'desc': desc, 'group': draw(st.integers(0, 5)), 'excluded_known': excluded}
 
 
+@st.composite
+def pipeline_cases(draw):
+    """long pipelines (6..14 stages, one column each) with several register feedback loops into earlier stages and bypass
+    nets that skip columns: many pass-through and feedback markers in one drawing"""
+    k = draw(st.integers(6, 14))
+    w = draw(st.sampled_from([1, 4]))
+    kinds = [draw(st.sampled_from(['Not', 'Reg', 'Buf', 'Reg', 'Not'])) for _ in range(k)]
+    nodes = []
+    prev = 'i0'
+    for i in range(k):
+        nodes.append({'op': kinds[i], 'args': [prev], 'w': w, 'p': {'en': False, 'rst': False} if kinds[i] == 'Reg' else {}, 'g': 0})
+        prev = 'n%d' % i
+    regs = [i for i in range(k) if kinds[i] == 'Reg']
+    outputs = [prev]
+    # feedback loops: stage i becomes Xor2(previous stage, output of a later register)
+    for _ in range(draw(st.integers(2, 4))):
+        cands = [(i, j) for j in regs for i in range(0, j) if kinds[i] in ('Not', 'Buf')]
+        if not cands:
+            break
+        i, j = draw(st.sampled_from(cands))
+        nodes[i] = {'op': 'Xor2', 'args': [nodes[i]['args'][0], 'n%d' % j], 'w': w, 'p': {}, 'g': 0}
+        kinds[i] = 'Xor2'
+    # bypasses: an extra gate reading a stage several columns back, driving an output of its own
+    for _ in range(draw(st.integers(0, 3))):
+        i = draw(st.integers(2, k - 1))
+        j = draw(st.integers(0, max(0, i - 2)))
+        nodes.append({'op': 'And2', 'args': ['n%d' % i, 'n%d' % j], 'w': w, 'p': {}, 'g': 0})
+        outputs.append('n%d' % (len(nodes) - 1))
+    order = list(draw(st.permutations(list(range(len(nodes))))))
+    desc = {'inputs': [{'w': w}], 'nodes': nodes, 'outputs': sorted(set(outputs)), 'order': order, 'groups': [{'parent': -1, 'enable': None}]}
+    return {'kind': 'netlist', 'desc': desc, 'group': 0, 'excluded_known': 0}
+
+
 def _per_block_task(task):
     from ..runner import hyp_task
     n = task['block']
@@ -325,5 +358,6 @@ def strata(tier):
     return [
         {'name': 'every_block', 'kind': 'enum', 'exhaustive': False, 'run_task': _per_block_task,
          'tasks': [{'block': n, 'n': 3 if q else 40} for n in names]},
+        {'name': 'pipelines_with_feedback_and_bypass', 'kind': 'hyp', 'examples': 400 if q else 6000, 'strategy': pipeline_cases, 'run_case': run_case},
         {'name': 'netlists', 'kind': 'hyp', 'examples': 150 if q else 4000, 'strategy': lambda: netlist_cases(14 if q else 40), 'run_case': run_case},
     ]
